@@ -6,3 +6,5 @@ import OlVerif.Props.C06
 #print axioms OlVerif.C06.binder_knows
 #print axioms OlVerif.C06.dictionary_is_new
 #print axioms OlVerif.C06.every_free_name_is_resolved
+#print axioms OlVerif.C06.first_iterable_outside
+#print axioms OlVerif.C06.comprehension_variable_shadows
